@@ -57,6 +57,11 @@ CLAIMS["C12"] = dict(
    text="Decides that PBKDF2 (generic path), HKDF, SP 800-108 counter mode and PBKDF1 build exactly the terms their specifications define (counters, encodings, chaining, concatenation, truncation, consecutive multi-key slices) for output lengths around block boundaries, that HMAC's key preparation is RFC 2104's, and that every documented parameter domain (scrypt N a power of two below 2^32, p*r bound, bcrypt cost/salt/72-byte/NUL rules, HKDF 255*hLen) is enforced exactly. Native fast paths (PBKDF2 assist, ROMix, EKSBlowfish) are not decided.",
    note="The symbolic PRF is SHA-256 over a length-prefixed encoding computed by the checker; references in vstat/props/C12.py.")
 
+CLAIMS["C18"] = dict(
+   technique="abstract interpretation of the samplers with the entropy source replaced by boundary tapes, compared with a reference rejection sampler; interval extraction at consumer call sites; call-graph rule for randfunc propagation (P7)",
+   text="Decides the shape of every sampler: for tapes at the region boundaries and every residue of bits mod 8, Integer.random/random_range, StrongRandom.getrandbits/randrange (including stepped ranges with a remainder) and the legacy number helpers return exactly what a masking/rejection sampler returns (exact acceptance interval, result = candidate + minimum, no modulo or truncation); each consumer (EC scalar, FIPS nonces, blinding factors) asks for the documented interval; a caller-supplied randfunc reaches every callee that accepts one (reviewed exceptions listed). Statistical quality of the OS source and loop termination are not decided.",
+   note="Uniformity follows from the rejection-sampler shape given a uniform tape; the reference samplers are in vstat/props/C18.py.")
+
 NOT_YET = {}
 
 ALL = ["C%02d" % i for i in range(1, 21)]
